@@ -813,6 +813,61 @@ random: 40-statement programs at both ends of the address space and elsewhere. n
 		check_prog(cx, &dirs, &prog, &reply);
 		cx.report.sample(format!("run {f} -> {reply}"));
 	}
+	// a LARGE region (more than 64 KiB written into one region: a long data statement, `.align 0x20000` after one byte) closed by
+	// a further `.addr`, then small regions: above it, directly behind it, and downwards into a small gap below it; the new region
+	// starts empty at exactly the selected address
+	{
+		let big: String = (0..70_000u32).map(|i| format!("{:02x}", (i * 7 + 3) as u8)).collect();
+		let large = [
+			format!("sel:4096;app:{big};sel:1048576;plc:0102;app:aabb;sel:4090;plc:01020304;plc:0506;plc:07;sel:74096;plc:11"),
+			format!("sel:4096;app:{big};sel:4092;defl:01020304;plc:05;sel:2000000;defg:aabb;app:cc"),
+			"sel:256;plc:01;al:131072;plc:02;sel:200000;plc:0304;al:4;plc:05;sel:250;plc:0a0b0c0d;plc:0e0f;plc:10".to_owned(),
+			"sel:1;plc:01;al:131072;sel:0;plc:aa;plc:bb;sel:131072;plc:cc;sel:300000;al:65536;plc:dd;sel:299990;app:00112233445566778899;app:aa".to_owned(),
+			format!("sel:4096;app:{big};sel:4096;plc:01"),
+		];
+		for f in &large
+		{
+			let prog: Vec<St> = f.split(';').map(|o| St::parse_op(o).unwrap()).collect();
+			let reply = cx.model.ask(&format!("seg run {}", ops_text(&prog)));
+			check_prog(cx, &dirs, &prog, &reply);
+			cx.report.hit("program with a region > 64 KiB followed by other regions");
+		}
+		let api_large = [
+			format!("sel:4096;wr:{big};sel:1048576;wr:0102;wat:1048576:aa;sel:4090;wr:01020304;wr:0506;wr:07;wat:4092:ffee;cl"),
+			format!("sel:4096;wr:{big};wat:4100:0000;sel:4092;wr:0102;wr:0304;wr:05;sel:74096;wr:11;wr:22;cl"),
+			format!("sel:4096;wr:{big};cl;sel:0;wr:01;sel:4095;wr:aa;wr:bb;sel:74096;wat:74096:cc;cl"),
+			format!("sel:4294897296;wr:{big};sel:4294897290;wr:010203040506;wr:07;sel:4294897296;cl"),
+			format!("sel:4096;wr:{big};sel:200000;wr:{big};sel:100000;wr:0102"),
+		];
+		for f in &api_large
+		{
+			let ops: Vec<AOp> = f.split(';').map(|o| AOp::parse(o).unwrap()).collect();
+			let reply = cx.model.ask(&format!("seg api {f}"));
+			check_api(cx, &dirs, &ops, &reply);
+			cx.report.hit("api program with a region > 64 KiB followed by other regions");
+		}
+		// random histories around a large region
+		for _ in 0..if cx.thorough() {200} else {24}
+		{
+			let mut rng = cx.rng.fork();
+			let base = 4096 + rng.below(64) as u32;
+			let len = 65_537 + rng.below(9000) as usize;
+			let data: Vec<u8> = (0..len).map(|i| (i as u8).wrapping_mul(5).wrapping_add(rng.0 as u8)).collect();
+			let mut ops = vec![AOp::Sel(base), AOp::Wr(data)];
+			for _ in 0..1 + rng.below(5)
+			{
+				let a = match rng.below(4) {0 => base - 1 - rng.below(8) as u32, 1 => base + len as u32 + rng.below(3) as u32, 2 => base + rng.below(len as u64) as u32, _ => 500_000 + rng.below(16) as u32};
+				ops.push(AOp::Sel(a));
+				for _ in 0..rng.below(4) {let k = rng.below(6); ops.push(AOp::Wr((0..k).map(|_| rng.next() as u8).collect()));}
+				if rng.chance(1, 2) {ops.push(AOp::Wat(a, vec![0xEE]));}
+			}
+			if rng.chance(1, 2) {ops.push(AOp::Close);}
+			let text = ops.iter().map(|o| o.op()).collect::<Vec<_>>().join(";");
+			let reply = cx.model.ask(&format!("seg api {text}"));
+			check_api(cx, &dirs, &ops, &reply);
+			cx.report.hit("api program with a region > 64 KiB followed by other regions");
+		}
+	}
 
 	api_section(cx, &dirs);
 
